@@ -231,3 +231,60 @@ for _name, _prio in (("_create_sr_latch_placement", True), ("_create_rs_latch_pl
               "MemoryBuilder._make_latch_debug_info": "skip"},
         dynamic_types={"self": {"layout_plan": ty.TObj("LayoutPlan", only=("LayoutPlan",))}},
         properties=("C05",), min_obligations=1, no_replay=True, note="non-inlined path"))
+
+# =================================================================================================
+# MemoryBuilder._handle_latch_write_standard: the remapping steps guarantee what the row builders need — the set
+# signal reaches the latch under the cell's own signal name, the reset signal under a DIFFERENT name (an internal one
+# when it would collide) — for every combination of set / reset / cell signal names.  The precondition of
+# _create_sr/rs_latch_placement (set name != reset name) is checked at the call site.
+# =================================================================================================
+NAMES = {}
+
+
+def _name_of_effect(ex, a):
+    v = z3.String(fresh_name("signal_name"))
+    NAMES.setdefault("seq", []).append(v)
+    return v
+
+
+name_lookup = Contract(qualname=signal_name.qualname, params=signal_name.params, effect=_name_of_effect, verify=False, note="name lookup (any name)")
+_SRREF = ty.TUnion((ty.TObj("SignalRef", only=("SignalRef",)), ty.Int))
+
+
+def _std_post(a, res):
+    c = CAP.get("latch_call")
+    if c is None:
+        return False
+    return And(c["set"] == a.module.signal_type, c["out"] == a.module.signal_type, c["const"] == 1)
+
+
+def _latch_call_effect(ex, a):
+    CAP["latch_call"] = {"set": a.set_signal_name, "reset": a.reset_signal_name, "out": a.output_signal, "const": a.output_constant}
+    return SObj(["EntityPlacement"], fresh_name("latch"), lazy=True)
+
+
+_P6 = {"self": _OPQ, "latch_id": _OPQ, "op": _OPQ, "set_signal_name": _OPQ, "reset_signal_name": _OPQ, "output_signal": _OPQ, "output_constant": _OPQ}
+_NEQ = [("set and reset arrive under different signal names", lambda a: Not(SObj.CUR.py_eq(a.set_signal_name, a.reset_signal_name)) if True else True)]
+sr_callee = Contract(qualname=MB + "_create_sr_latch_placement", params=_P6, requires=_NEQ, effect=_latch_call_effect, verify=False, note="proved above; precondition checked at this call")
+rs_callee = Contract(qualname=MB + "_create_rs_latch_placement", params=_P6, requires=_NEQ, effect=_latch_call_effect, verify=False, note="proved above; precondition checked at this call")
+
+for _lt in ("sr_latch", "rs_latch"):
+    CONTRACTS.append(Contract(
+        qualname=MB + "_handle_latch_write_standard",
+        params={"self": ty.TObj("MemoryBuilder", only=("MemoryBuilder",)), "op": ty.TObj("IRLatchWrite", only=("IRLatchWrite",)),
+                "module": ty.TObj("MemoryModule", only=("MemoryModule",)), "signal_graph": ty.TOpaque("graph")},
+        requires=[("(reset)", lambda a: (CAP.clear(), NAMES.clear()) and True),
+                  ("the cell is not declared on the internal remap signal", lambda a: a.module.signal_type != "signal-dot")],
+        ensures=[("the latch is built with the set signal on the cell's name, output on the cell's name, constant 1", _std_post)],
+        uses={"SignalAnalyzer.get_signal_name": name_lookup, "opaque.get_signal_name": name_lookup,
+              "MemoryBuilder._create_sr_latch_placement": sr_callee, "MemoryBuilder._create_rs_latch_placement": rs_callee,
+              "MemoryBuilder._create_signal_remapper": "skip", "MemoryBuilder._setup_latch_feedback": "skip", "MemoryBuilder._create_latch_multiplier": "skip",
+              "LayoutPlan.add_wire_connection": "skip", "opaque.add_wire_connection": "skip", "opaque.add_sink": "skip", "opaque.set_source": "skip",
+              "opaque.info": "skip", "opaque.warning": "skip"},
+        dynamic_types={"self": {"layout_plan": ty.TObj("LayoutPlan", only=("LayoutPlan",)), "signal_analyzer": ty.TObj("SignalAnalyzer", only=("SignalAnalyzer",)),
+                                "diagnostics": ty.TOpaque("diag")},
+                       "op": {"set_signal": _SRREF, "reset_signal": _SRREF, "latch_type": ty.TConcrete(_lt), "value": _SRREF, "memory_id": ty.Str},
+                       "module": {"signal_type": ty.Str, "write_gate": ty.TOpt(ty.TObj("EntityPlacement", only=("EntityPlacement",))),
+                                  "hold_gate": ty.TOpt(ty.TObj("EntityPlacement", only=("EntityPlacement",)))}},
+        properties=("C05",), min_obligations=2, no_replay=True, note=f"{_lt}; non-inlined path"))
+CONTRACTS += [name_lookup, sr_callee, rs_callee]
